@@ -1164,7 +1164,15 @@ func (s *State) valueOf(v ssa.Value) Val {
 	case *ssa.Global:
 		return Val{T: v.Type(), Loc: &Loc{Global: v, RootT: derefType(v.Type())}, Terms: []string{"(- 1)"}}
 	case *ssa.Function:
-		return Val{T: v.Type(), Fn: v, Terms: []string{s.fnRef(v)}}
+		fv := Val{T: v.Type(), Fn: v, Terms: []string{s.fnRef(v)}}
+		if v.Parent() != nil && len(v.FreeVars) == 0 {
+			key := "fndef:" + s.eng.fnKey(v)
+			if _, done := s.ghost[key]; !done {
+				s.ghost[key] = mkBool("true")
+				s.closureDefinition(nil, v, fv)
+			}
+		}
+		return fv
 	case *ssa.Builtin:
 		return Val{T: v.Type(), Terms: []string{"0"}}
 	}
@@ -1370,6 +1378,7 @@ func (s *State) exec(in ssa.Instruction) {
 		}
 		v.Terms = []string{s.allocRef("closure", "$closure")}
 		s.regs[in] = v
+		s.closureDefinition(in, f, v)
 	case *ssa.MakeMap:
 		mt := in.Type().Underlying().(*types.Map)
 		r := s.allocRef("map", typeKey(in.Type()))
@@ -2324,4 +2333,90 @@ func (e *Engine) capturedCell(fv *ssa.FreeVar) *ssa.Alloc {
 		}
 	}
 	return found
+}
+
+// closureDefinition: a closure made from a side-effect-free string->string function under contract, whose captured
+// variables are never assigned again, IS the function its contract describes: for every argument, applying the closure
+// value (fn_app_ss) satisfies the function's postconditions. (The function itself is verified against that contract.)
+func (s *State) closureDefinition(mc *ssa.MakeClosure, f *ssa.Function, cv Val) {
+	spec := s.eng.specs[s.eng.fnKey(f)]
+	if spec == nil || !spec.HasMod || len(spec.Modifies) != 0 || spec.Trusted || len(spec.Requires) != 0 {
+		return
+	}
+	sig := f.Signature
+	if sig.Params().Len() != 1 || sig.Results().Len() != 1 || !isString(sig.Params().At(0).Type()) || !isString(sig.Results().At(0).Type()) {
+		return
+	}
+	if mc != nil {
+		for i, b := range mc.Bindings {
+			a, ok := b.(*ssa.Alloc)
+			if !ok || !assignedOnce(a) || i >= len(f.FreeVars) || !onlyLoaded(f.FreeVars[i]) {
+				return
+			}
+		}
+	} else if len(f.FreeVars) != 0 {
+		return
+	}
+	env := &SpecEnv{st: s, vars: map[string]Val{}, old: s.snapshot()}
+	if f.Pkg != nil {
+		env.pkg = f.Pkg.Pkg
+	} else if f.Parent() != nil && f.Parent().Pkg != nil {
+		env.pkg = f.Parent().Pkg.Pkg
+	}
+	s.eng.counter++
+	q := sym(fmt.Sprintf("s?c%d", s.eng.counter))
+	env.vars[f.Params[0].Name()] = mkStr(q)
+	for i, fv := range f.FreeVars {
+		env.vars["&"+fv.Name()] = cv.Binds[i]
+	}
+	res := mkStr(app("fn_app_ss", cv.Terms[0], q))
+	env.vars["result"] = res
+	env.vars["result0"] = res
+	for _, cl := range spec.Ensures {
+		cl := cl
+		_ = safeSpec(func() {
+			body := env.evalBool(cl.Expr)
+			s.assume(fmt.Sprintf("(forall ((%s String)) (! %s :pattern ((fn_app_ss %s %s))))", q, body, cv.Terms[0], q))
+		})
+	}
+	s.eng.assumptionsUsed["a closure value made from a side-effect-free string function under contract satisfies that function's postconditions for every argument (its captured variables are assigned exactly once, before the closure is made)"] = true
+}
+
+// assignedOnce: the variable is stored to exactly once in its function (e.g. a parameter spilled on entry).
+func assignedOnce(a *ssa.Alloc) bool {
+	if a.Referrers() == nil {
+		return false
+	}
+	n := 0
+	for _, r := range *a.Referrers() {
+		switch r := r.(type) {
+		case *ssa.Store:
+			if r.Addr != a {
+				return false
+			}
+			n++
+		case *ssa.UnOp, *ssa.DebugRef, *ssa.MakeClosure:
+		default:
+			return false
+		}
+	}
+	return n == 1
+}
+
+func onlyLoaded(fv *ssa.FreeVar) bool {
+	if fv.Referrers() == nil {
+		return true
+	}
+	for _, r := range *fv.Referrers() {
+		switch r := r.(type) {
+		case *ssa.UnOp:
+			if r.Op != token.MUL {
+				return false
+			}
+		case *ssa.DebugRef:
+		default:
+			return false
+		}
+	}
+	return true
 }
